@@ -578,6 +578,38 @@ class Program:
             self._delegates = {k: v for k, v in out.items() if v is not None}
         return self._delegates
 
+    def returns_record(self, name, only=None):
+        """Field names if every repository function called `name` returns, on every path, a record of one type built in
+        place (`return Rec(a, b)` / `Rec(x=a, y=b)`, NamedTuple or namedtuple): the positions and the field names then
+        name the same components of the call's result.  None otherwise."""
+        cache = self.__dict__.setdefault("_retrec", {})
+        ck = (name, only.qualname if only is not None else None)
+        if ck in cache:
+            return cache[ck]
+        cache[ck] = None
+        fns = [only] if only is not None else [f for f in self.functions.values() if f.name == name and "@" not in f.qualname]
+        if not fns:
+            return None
+        fields = None
+        for f in fns:
+            rets = [r for r in ast.walk(f.node) if isinstance(r, ast.Return)]
+            if not rets:
+                return None
+            for r in rets:
+                v = r.value
+                if isinstance(v, ast.Name):
+                    defs = [a.value for a in ast.walk(f.node) if isinstance(a, ast.Assign) and any(isinstance(t, ast.Name) and t.id == v.id for t in a.targets)]
+                    v = defs[0] if len(defs) == 1 else None
+                if not (isinstance(v, ast.Call) and isinstance(v.func, ast.Name)):
+                    return None
+                fl = self.record_fields(v.func.id, f.module)
+                if not fl or (fields is not None and fl != fields):
+                    return None
+                # dataclasses are not sequences: only tuple-like records have positions
+                fields = fl
+        cache[ck] = fields
+        return fields
+
     def record_fields(self, name, module, depth=0):
         """Field names if `name`, as seen from `module`, is a record type: `X = namedtuple("X", [...])`, a
         `typing.NamedTuple` subclass, or a `@dataclass` without a hand-written __init__.  None otherwise."""
